@@ -6,9 +6,20 @@
   specification: block `i` is itself, or — if an earlier live entry/@string has its key — a
   duplicate-key block exposing the key, that FIRST block, and the complete duplicate.
   Statements only; lemmas in Lemmas/AddAll.lean; the splitter part reuses the C02 chain.
+
+  Pipeline level (second half): `Interpolate.addAll` is the assert-free model of the same
+  `Library.add` used by the model of the default parse stack (`Pipeline.parseDefault`); the two
+  models agree (`models_agree`), and the default stack - ResolveStringReferences, RemoveEnclosing in
+  place, each followed by a `Library(blocks)` rebuild - keeps the *skeleton* (`skel`: class, type,
+  keys, field keys and lines, start line, raw text, wrapper structure; values and parser metadata
+  erased) of every block of `parse_string(text, parse_stack=[])` at its position
+  (`default_stack_keeps_structure`).  Lemmas in Lemmas/AddAllAgree.lean.
 -/
 import BibVerif.Lemmas.AddAll
 import BibVerif.Lemmas.Doc
+import BibVerif.Lemmas.AddAllAgree
+import BibVerif.Lemmas.StrBlocks
+import BibVerif.Props.C02
 namespace Bib.C09
 open Bib
 
@@ -150,6 +161,173 @@ example :
         (fun L => L.blocks.map fun b => match b with
           | .dupKey _ p d => (1, p.line, d.line) | b => (0, b.line, b.line))
       = some [(0, 1, 1), (0, 9, 9), (1, 1, 2), (0, 3, 3), (1, 1, 4), (1, 9, 9)] := by
+  decide +kernel
+
+/-! ### the default parse stack keeps the structure -/
+
+/-- **The two models of `Library.add` agree**: the assert-free fold used by the pipeline model
+builds the blocks of the model with the two `_cast_to_duplicate` asserts … -/
+theorem models_agree (bs : List Block) (K : KLib) (h : libraryOfE bs = .ok K) :
+    (Interpolate.addAll bs).blocks = K.blocks :=
+  (libraryOfE_agree bs K h).blocks
+
+/-- … and the same two key indexes -/
+theorem models_agree_indexes (bs : List Block) (K : KLib) (h : libraryOfE bs = .ok K) :
+    (Interpolate.addAll bs).entries = K.eidx ∧ (Interpolate.addAll bs).strings = K.sidx :=
+  ⟨(libraryOfE_agree bs K h).entries, (libraryOfE_agree bs K h).strings⟩
+
+/-- hence (with `library_add`) the pipeline's `Library(blocks)` is the specification -/
+theorem models_agree_spec (bs : List Block) : (Interpolate.addAll bs).blocks = addAllSpec [] bs :=
+  addAll_blocks_spec bs
+
+/-- `ResolveStringReferences` changes no skeleton -/
+theorem resolve_keeps_skeleton (L : Interpolate.Lib) :
+    (Interpolate.transform L).blocks.map skel = L.blocks.map skel :=
+  skel_transform L
+
+/-- `RemoveEnclosing` (in place or on copies) changes no skeleton when it does not raise -/
+theorem remove_enclosing_keeps_skeleton (inplace : Bool) (bs bs' : List Block)
+    (h : Enclosing.removeLib P inplace bs = .ok bs') : bs'.map skel = bs.map skel :=
+  skel_removeLib P inplace bs bs' h
+
+/-- **Re-adding, generalised to skeletons**: a block list that has the skeletons of a library
+(values may differ) is a fixed point of `Library(blocks)` - keys are part of the skeleton, live
+entries / @strings of a library have pairwise distinct keys, and duplicate-key wrappers are not
+live, so nothing is wrapped again and nothing is dropped. -/
+theorem readd_skeleton (bs' bs : List Block) (h : bs'.map skel = (addAllSpec [] bs).map skel) :
+    (Interpolate.addAll bs').blocks = bs' := by
+  rw [models_agree_spec]; exact addAllSpec_of_skel bs' bs h
+
+/-- **The default parse stack keeps the structure**: `parse_string(text)` returns exactly the
+blocks of `parse_string(text, parse_stack=[])` - same number, same positions, same classes, types,
+keys, field keys, lines, raw texts, same wrappers around the same blocks. -/
+theorem default_stack_keeps_structure (P : PyChars) (s : Str) (L : List Block)
+    (h : Pipeline.parseDefault P s = .ok L) :
+    ∃ bs, split P s = .ok bs ∧ L.map skel = (addAllSpec [] bs).map skel :=
+  parseDefault_skel P s L h
+
+/-- … for every text (the default stack never raises, C01 `parse_total`) -/
+theorem default_stack_structure_total (s : Str) :
+    ∃ L bs, Pipeline.parseDefault P s = .ok L ∧ split P s = .ok bs ∧
+      L.map skel = (addAllSpec [] bs).map skel := by
+  obtain ⟨L, h, _⟩ := Pipeline.parseDefault_total P s
+  obtain ⟨bs, h1, h2⟩ := parseDefault_skel P s L h
+  exact ⟨L, bs, h, h1, h2⟩
+
+/-- **Count preserved by default parsing**: as many blocks as the splitter produced. -/
+theorem count_preserved_default (s : Str) (L : List Block) (h : Pipeline.parseDefault P s = .ok L) :
+    ∃ bs, split P s = .ok bs ∧ L.length = bs.length := by
+  obtain ⟨bs, h1, h2⟩ := parseDefault_skel P s L h
+  refine ⟨bs, h1, ?_⟩
+  have := congrArg List.length h2
+  simpa [addAllSpec_length] using this
+
+/-- **One block per source block, default parsing**: for the text of a grammar derivation the
+returned library has exactly one block that is not a free-text comment per `@…` source block -
+duplicates (of block keys and of field keys) included. -/
+theorem count_blocks_default (hP : WordOK2 P) (d : Doc) (h : d.WF P) (hc : Canon P false d.toks)
+    (s : Str) (hs : '\n' :: s = flatten d.toks) (L : List Block)
+    (hL : Pipeline.parseDefault P s = .ok L) :
+    (L.filter notImplicit).length = d.items.length := by
+  obtain ⟨bs, h1, h2⟩ := parseDefault_skel P s L hL
+  rw [C02.split_correct_text P hP d h hc s hs] at h1
+  injection h1 with h1; subst h1
+  rw [filter_notImplicit_of_skel _ _ h2, filter_notImplicit_addAllSpec]
+  exact C02.count_blocks P d
+
+/-- **First wins, default parsing**: a source entry with no earlier live entry of its key is the
+live entry at its position (values transformed, skeleton intact). -/
+theorem first_wins_default (s : Str) (L : List Block) (h : Pipeline.parseDefault P s = .ok L) :
+    ∃ bs, split P s = .ok bs ∧ ∀ pre e post, bs = pre ++ .live (.entry e) :: post →
+      firstEntry e.key pre = none →
+      ∃ e', L[pre.length]? = some (.live (.entry e')) ∧ skelEntry e' = skelEntry e := by
+  obtain ⟨bs, h1, h2⟩ := parseDefault_skel P s L h
+  refine ⟨bs, h1, ?_⟩
+  intro pre e post hbs hf
+  subst hbs
+  obtain ⟨b', hb, hsk⟩ := skel_at L pre post _ h2
+  rw [first_wins pre e hf] at hsk
+  obtain ⟨e', rfl, he⟩ := skel_eq_entry hsk
+  exact ⟨e', hb, he⟩
+
+/-- **Later ones are flagged, default parsing**: a source entry whose key an earlier live entry
+`p` has (the first such, `later_wrapped`) is, at its position, a duplicate-key block with that key,
+a previous block with the skeleton of `p`, and a duplicate with the complete skeleton of the entry. -/
+theorem later_wrapped_default (s : Str) (L : List Block) (h : Pipeline.parseDefault P s = .ok L) :
+    ∃ bs, split P s = .ok bs ∧ ∀ pre e post p, bs = pre ++ .live (.entry e) :: post →
+      firstEntry e.key pre = some p →
+      ∃ p' d', L[pre.length]? = some (.dupKey e.key p' d') ∧ skelLive p' = skelLive p ∧
+        skelLive d' = skelLive (.entry e) := by
+  obtain ⟨bs, h1, h2⟩ := parseDefault_skel P s L h
+  refine ⟨bs, h1, ?_⟩
+  intro pre e post p hbs hf
+  subst hbs
+  obtain ⟨b', hb, hsk⟩ := skel_at L pre post _ h2
+  rw [(later_wrapped pre e p hf).1] at hsk
+  obtain ⟨p', d', rfl, hp, hd⟩ := skel_eq_dupKey hsk
+  exact ⟨p', d', hb, hp, hd⟩
+
+/-- the same for @strings -/
+theorem string_later_wrapped_default (s : Str) (L : List Block) (h : Pipeline.parseDefault P s = .ok L) :
+    ∃ bs, split P s = .ok bs ∧ ∀ pre k v l r m post p, bs = pre ++ .live (.string k v l r m) :: post →
+      firstString k pre = some p →
+      ∃ p' d', L[pre.length]? = some (.dupKey k p' d') ∧ skelLive p' = skelLive p ∧
+        skelLive d' = .string k l r := by
+  obtain ⟨bs, h1, h2⟩ := parseDefault_skel P s L h
+  refine ⟨bs, h1, ?_⟩
+  intro pre k v l r m post p hbs hf
+  subst hbs
+  obtain ⟨b', hb, hsk⟩ := skel_at L pre post _ h2
+  rw [string_later_wrapped pre k v l r m p hf] at hsk
+  obtain ⟨p', d', rfl, hp, hd⟩ := skel_eq_dupKey hsk
+  exact ⟨p', d', hb, hp, hd⟩
+
+/-- **Duplicate field keys, default parsing**: a duplicate-field block of the splitter is still a
+duplicate-field block at its position, reporting the same keys, with every field occurrence of
+the inner entry in order. -/
+theorem dup_field_default (s : Str) (L : List Block) (h : Pipeline.parseDefault P s = .ok L) :
+    ∃ bs, split P s = .ok bs ∧ ∀ pre ds e post, bs = pre ++ .dupField ds e :: post →
+      ∃ e', L[pre.length]? = some (.dupField ds e') ∧ skelEntry e' = skelEntry e := by
+  obtain ⟨bs, h1, h2⟩ := parseDefault_skel P s L h
+  refine ⟨bs, h1, ?_⟩
+  intro pre ds e post hbs
+  subst hbs
+  obtain ⟨b', hb, hsk⟩ := skel_at L pre post _ h2
+  obtain ⟨e', rfl, he⟩ := skel_eq_dupField (show skel b' = skel (.dupField ds e) from hsk)
+  exact ⟨e', hb, he⟩
+
+/-! ### non-vacuity at pipeline level -/
+
+/-- a duplicate entry key, a duplicate @string key and a duplicate field key -/
+def exText : Str :=
+  "@a{k, f = s}\n@b{k, g = {x}}\n@string{s = {1}}\n@string{s = \"2\"}\n@a{j, f = 1, f = 2}\njunk".toList
+
+/-- the default parse stack returns entry, duplicate-key block, @string, duplicate-key block,
+duplicate-field block, free-text comment -/
+example : (Pipeline.parseDefault asciiChars exText).toOption.map (fun L => L.map fun b => (skel b).cls)
+    = some [0, 7, 1, 7, 6, 4] := by
+  decide +kernel
+
+/-- … with, block by block, the skeletons of `parse_string(text, parse_stack=[])` … -/
+example : (Pipeline.parseDefault asciiChars exText).toOption.map (fun L => L.map skel)
+    = ((split asciiChars exText).toOption.bind fun bs => (libraryOfE bs).toOption).map
+        (fun K => K.blocks.map skel) := by
+  decide +kernel
+
+/-- … although the blocks themselves differ (the skeleton is not the identity): the first entry's
+field `f = s` has been resolved and stripped to `1` -/
+example : ((Pipeline.parseDefault asciiChars exText).toOption.map fun L => L.take 1 |>.map fun b =>
+      match b with | .live (.entry e) => e.fields.map (·.value) | _ => [])
+    = some [[.str "1".toList]] ∧
+    (((split asciiChars exText).toOption.bind fun bs => (libraryOfE bs).toOption).map fun K =>
+      K.blocks.take 1 |>.map fun b => match b with | .live (.entry e) => e.fields.map (·.value) | _ => [])
+    = some [[.str "s".toList]] := by
+  decide +kernel
+
+/-- the hypotheses of `later_wrapped_default` / `dup_field_default` are met by the example: the
+splitter's second block is a live entry with the key of the first, its fifth a duplicate-field block -/
+example : (split asciiChars exText).toOption.map (fun bs => bs.map fun b => ((skel b).cls, (skel b).entryKey?))
+    = some [(0, some "k".toList), (0, some "k".toList), (1, none), (1, none), (6, none), (4, none)] := by
   decide +kernel
 
 end Bib.C09
